@@ -363,6 +363,11 @@ def zeroAngle (r : Run α) (barrelElevation distFt : α) (fuel skipFuel : Nat) :
   zeroLoop r.cfg (zeroMiss r zeroDistance fuel skipFuel) zeroDistance r.cfg.maxIterations 0
     (r.cfg.zeroAccuracy * 2.0) barrelElevation
 
+/-- `zero_angle` as the code runs it: the search starts ON THE SIGHT LINE (elevation = look angle), whatever zero the weapon
+    stored before and whatever hold-over the shot carries -/
+def zeroAngleOfShot (r : Run α) (distFt : α) (fuel skipFuel : Nat) : Except (Err α) α :=
+  zeroAngle r r.proj.lookAngle distFt fuel skipFuel
+
 /-! ### building a `Run` from shot data (`_init_trajectory`) -/
 
 structure ShotRaw (α : Type) where
